@@ -54,6 +54,9 @@ def _c15_trace(inst):
     run = recorder.Run(dict(inst, user_params={"dykstra.d_tol": inst["tol"]}), P)
     ev = []
     projs = [s["proj"] for s in sets]
+    if inst.get("alias"):
+        # projectors written the usual way: a point that is already in the set is handed back AS IS (the same array object, no copy)
+        projs = [(lambda w, f=s["proj"], dist=s["dist"]: w if dist(w) == 0.0 else f(w)) for s in sets]
     for rep in range(inst["reps"]):
         kind = ["near", "far", "inside", "slight"][rep % 4]
         d = rng.normal(size=n)
@@ -144,7 +147,7 @@ def run(tier):
         k = int(rng.integers(1, 5))
         insts.append(dict(id=i + 1, seed=int(rng.integers(0, 2 ** 31 - 1)), n=int(rng.integers(1, 7)), sets=[str(rng.choice(["ball", "half", "box"])) for _ in range(k)],
                           mag=float(rng.choice([0.0, 1.0, 10.0, 300.0])), tol=float(rng.choice([1e-10, 1e-10, 1e-6, 1e-14])), maxiter=int(rng.choice([100, 100, 5, 1000])),
-                          reps=4))
+                          reps=4, alias=bool(rng.random() < 0.35)))
     ctx = mp.get_context("fork")
     with ctx.Pool(16) as pool:
         traces = pool.map(c15_trace, insts, chunksize=4)
@@ -170,5 +173,6 @@ def run(tier):
                evaluations=ncalls, distinct_nontrivial=len(set((i["n"], tuple(i["sets"]), i["tol"], i["maxiter"]) for i in insts)),
                rule="random intersections per (dimension, set kinds, tolerance, sweep cap) class, 4 start kinds each (near, far, inside, barely infeasible); calls that hit the sweep cap are exempt from the feasibility / optimality clauses as the property says",
                samples=[dict(instance=insts[0], events=traces[0]["ev"][:2])])
-    return V.finish(cov, "model_checking", ["projectors are the harness's own exact projectors onto balls, half-spaces and boxes with a common interior point",
+    return V.finish(cov, "model_checking", ["projectors are the harness's own exact projectors onto balls, half-spaces and boxes with a common interior point; in about a third of the "
+                                            "instances they return their argument object itself when it is already in the set",
                                             "reference projection: the same algorithm run to tol 1e-28 / 2*10^5 sweeps"])
